@@ -17,6 +17,7 @@ import AnnetModel.Lemmas.GenPaths
 import AnnetModel.Lemmas.GenRun
 import AnnetModel.Lemmas.GenStrip
 import AnnetModel.Lemmas.GenAssoc
+import AnnetModel.Lemmas.GenFull
 
 /-! OBLIGATIONS
 Annet.Gen.C10_yield_paths
@@ -39,6 +40,14 @@ Annet.Gen.C10_old_new
 Annet.Gen.C10_new_paths
 Annet.Gen.C10_new_eq_union_false_merged_acl
 Annet.Gen.C10_new_eq_union_partial
+Annet.Gen.C10_full_sub
+Annet.Gen.C10_full_no_acl_rules_nothing_passes
+Annet.Gen.C10_full_empty_filter_nothing_passes
+Annet.Gen.C10_full_filter_narrows
+Annet.Gen.C10_full_new_paths_covered
+Annet.Gen.C10_full_old_paths_covered
+Annet.Gen.C10_full_noacl_nofilter_identity
+Annet.Gen.C10_run_partials_use_acl
 -/
 
 namespace Annet.Gen
@@ -338,5 +347,76 @@ example :
     partialPaths (oldNew v .huawei [g1, g3]) = some [["interface Eth1"], ["interface Eth1", "mtu 9000"],
       ["interface Eth1", "description x"], ["interface Eth1", "ip address 1"], ["vlan 10"]] := by
   decide
+
+/-! ### `_old_new_per_device` with a device configuration and a filter ACL (`Model/Gen.lean`, `aclSteps`, `oldNewFull`) -/
+
+/-- What is passed on is an order-preserving sub-tree of the device configuration, respectively of the merged
+generator output. -/
+theorem C10_full_sub (v : Vendor) (sp : Splitter) (gens : List GenDef) (noAcl exclusive : Bool)
+    (filter : Option (List RawRule)) (old : Cfg) (r : OldNew)
+    (h : oldNewFull v sp gens noAcl exclusive filter old = .ok r) :
+    Sub r.old old ∧ ∃ rs, runPartialsU (!noAcl) v sp gens [] = .ok rs ∧ Sub r.new (configTree rs) :=
+  oldNewFull_sub v sp gens noAcl exclusive filter old r h
+
+/-- AN EMPTY ALLOW-LIST ALLOWS NOTHING: generators none of which provides an ACL rule (unsupported vendor, `acl()` returning
+nothing) yield an empty old and an empty new — nothing of the device can be patched. -/
+theorem C10_full_no_acl_rules_nothing_passes (v : Vendor) (sp : Splitter) (gens : List GenDef) (exclusive : Bool)
+    (filter : Option (List RawRule)) (old : Cfg) (r : OldNew) (hg : ∀ g ∈ gens, g.acl = [])
+    (h : oldNewFull v sp gens false exclusive filter old = .ok r) : r.old = .mk [] ∧ r.new = .mk [] :=
+  oldNewFull_no_acl_rules v sp gens exclusive filter old r hg h
+
+/-- A REQUESTED FILTER THAT COVERS NOTHING PASSES NOTHING (`-i` naming no port of this device, an empty `--filter-acl`). -/
+theorem C10_full_empty_filter_nothing_passes (v : Vendor) (sp : Splitter) (gens : List GenDef) (noAcl exclusive : Bool)
+    (old : Cfg) (r : OldNew) (h : oldNewFull v sp gens noAcl exclusive (some []) old = .ok r) :
+    r.old = .mk [] ∧ r.new = .mk [] :=
+  oldNewFull_empty_filter v sp gens noAcl exclusive old r h
+
+/-- A filter only narrows what the run without a filter passes on. -/
+theorem C10_full_filter_narrows (v : Vendor) (noAcl exclusive : Bool) (genAcl f : List RawRule) (old new : Cfg)
+    (r : OldNew) (h : aclSteps v noAcl exclusive genAcl (some f) old new = .ok r) :
+    ∃ r0, aclSteps v noAcl exclusive genAcl none old new = .ok r0 ∧ Sub r.old r0.old ∧ Sub r.new r0.new :=
+  aclSteps_filter_narrows v noAcl exclusive genAcl f old new r h
+
+/-- Every path passed on in `new` is covered level by level by the generators' combined ACL and by the filter ACL … -/
+theorem C10_full_new_paths_covered (v : Vendor) (genAcl f : List RawRule) (old new : Cfg)
+    (r : OldNew) (h : aclSteps v false false genAcl (some f) old new = .ok r) (p : List String) (hp : p ∈ r.new.paths) :
+    p ∈ new.paths ∧ (walk v (compileAcl [genAcl]) p).isSome ∧ (walk v (compileAcl [f]) p).isSome :=
+  aclSteps_new_paths_covered v genAcl f old new r h p hp
+
+/-- … and so is every path passed on in `old`. -/
+theorem C10_full_old_paths_covered (v : Vendor) (exclusive : Bool) (genAcl f : List RawRule) (old new : Cfg)
+    (r : OldNew) (h : aclSteps v false exclusive genAcl (some f) old new = .ok r) (p : List String) (hp : p ∈ r.old.paths) :
+    p ∈ old.paths ∧ (walk v (compileAcl [genAcl]) p).isSome ∧ (walk v (compileAcl [f]) p).isSome :=
+  aclSteps_old_paths_covered v exclusive genAcl f old new r h p hp
+
+
+/-- With `--no-acl` and no filter option everything is passed on unchanged: the device configuration as it is, the
+generators' rows as parsed and merged. -/
+theorem C10_full_noacl_nofilter_identity (v : Vendor) (sp : Splitter) (gens : List GenDef) (exclusive : Bool) (old : Cfg)
+    (r : OldNew) (h : oldNewFull v sp gens true exclusive none old = .ok r) :
+    r.old = old ∧ ∃ rs, runPartialsU false v sp gens [] = .ok rs ∧ r.new = configTree rs :=
+  oldNewFull_noacl_nofilter v sp gens exclusive old r h
+
+/-- `use_acl = True` is the run the other theorems of this file are about. -/
+theorem C10_run_partials_use_acl (v : Vendor) (sp : Splitter) (gens : List GenDef) (acc : List Result) :
+    runPartialsU true v sp gens acc = runPartials v sp gens acc :=
+  runPartialsU_true v sp gens acc
+
+/-- Non-vacuity (`--no-acl`, filter `interface * / description ~`): the filter selects exactly the covered lines of the
+device configuration. -/
+example :
+    (oldNewFull { reverse := "undo" } .common [] true true
+      (some [.mk "interface *" false false [false] 0 [] [.mk "description ~" false false [false] 0 [] []]])
+      (.mk [("interface Eth1", .mk [("description x", .mk []), ("mtu 9000", .mk [])]), ("snmp-agent", .mk [])])).toOption.map
+        (fun r => (r.old.paths, r.new.paths)) =
+      some ([["interface Eth1"], ["interface Eth1", "description x"]], []) := by
+  decide +kernel
+
+/-- Non-vacuity (no generator supports the device, ACLs on): nothing of the device configuration is passed on. -/
+example :
+    (oldNewFull { reverse := "undo" } .common [] false true none
+      (.mk [("interface Eth1", .mk [("description x", .mk [])]), ("snmp-agent", .mk [])])).toOption.map
+        (fun r => (r.old.paths, r.new.paths)) = some ([], []) := by
+  decide +kernel
 
 end Annet.Gen
